@@ -106,10 +106,18 @@ func c06State(w *harness.World, ctx sdk.Context, aux interface{}) []*explore.Vio
 			continue
 		}
 		post, _ := w.App.CfevestingKeeper.GetAccountVestingPools(c2, avp.Owner)
+		// the query's answer is matched by pool name: the property does not fix the order of the list
+		byName := map[string]string{}
+		for _, qp := range resp.VestingPools {
+			byName[qp.Name] = qp.Withdrawable
+		}
+		if len(resp.VestingPools) != len(avp.VestingPools) {
+			bad("query-pool-count", "the query lists %d pools, the owner has %d", len(resp.VestingPools), len(avp.VestingPools))
+		}
 		for i, p := range avp.VestingPools {
 			paid := post.VestingPools[i].Withdrawn.Sub(p.Withdrawn)
-			if resp.VestingPools[i].Withdrawable != paid.String() {
-				bad("query-withdrawable", "pool %s: query reports withdrawable %s, a withdrawal in the same block pays %s", p.Name, resp.VestingPools[i].Withdrawable, paid)
+			if got, ok := byName[p.Name]; !ok || got != paid.String() {
+				bad("query-withdrawable", "pool %s: query reports withdrawable %q, a withdrawal in the same block pays %s", p.Name, got, paid)
 			}
 			if ctx.BlockTime().Before(p.LockEnd) && !paid.IsZero() {
 				bad("paid-before-lock-end", "pool %s paid %s before its lock end", p.Name, paid)
@@ -131,6 +139,13 @@ func runC06(rc *RunCtx) {
 		{Name: "far", VestingType: "t0", LockStart: harness.T0, LockEnd: time.Date(2300, 1, 1, 0, 0, 0, 0, time.UTC), InitiallyLocked: sdk.NewInt(7), Withdrawn: sdk.ZeroInt(), Sent: sdk.ZeroInt(), GenesisPool: true}}}}
 	g.ExtraBal = append(g.ExtraBal, banktypes.Balance{Address: harness.ModAddr(vtypes.ModuleName).String(), Coins: coins(7)})
 	scn.Genesis = harness.BuildGenesis(g)
+	// coins leave a pool only into a NEW account: C exists (it only ever received coins)
+	for _, restart := range []bool{true, false} {
+		restart := restart
+		scn.Events = append(scn.Events, Ev{Name: fmt.Sprintf("send(A.p,3,->C-existing,restart=%v)", restart), Build: func(v View) (sdk.Msg, string) {
+			return vtypes.NewMsgSendToVestingAccount(harness.AddrS("A"), harness.AddrS("C"), "p", sdk.NewInt(3), restart), "A"
+		}})
+	}
 	scn.StepOracle = c06Step
 	scn.StateOracle = c06State
 	depth, budget, maxTraces := 5, 100*time.Second, 2000
